@@ -127,10 +127,15 @@ def numba_available():
     return bool(su._HAS_NUMBA)
 
 
-def run_method(method, x, y, banded_solver=2, **kw):
+def new_fitter(x, banded_solver=2):
     from pybaselines import Baseline
     f = Baseline(x_data=np.asarray(x, dtype=float), check_finite=False)
     f.banded_solver = banded_solver
+    return f
+
+
+def run_method(method, x, y, banded_solver=2, fitter=None, **kw):
+    f = fitter if fitter is not None else new_fitter(x, banded_solver)
     with warnings.catch_warnings():
         warnings.simplefilter('ignore')
         out = getattr(f, method)(np.asarray(y, dtype=float), **kw)
@@ -690,7 +695,8 @@ def oracle_case(ctx, rng, method, numba, big):
     check_run(ctx, method, numba, banded_solver, x, y, kw, desc, style)
 
 
-def check_run(ctx, method, numba, banded_solver, x, y, kw, desc, style=''):
+def check_run(ctx, method, numba, banded_solver, x, y, kw, desc, style='', fitter=None):
+    """One call (on a fresh fitter, or on the shared `fitter` of a call sequence) checked pass by pass."""
     k, num_knots, d, lam = kw['spline_degree'], kw['num_knots'], kw['diff_order'], kw['lam']
     M = num_knots + k - 1
     try:
@@ -703,7 +709,7 @@ def check_run(ctx, method, numba, banded_solver, x, y, kw, desc, style=''):
                 out = (out[0], {})
                 fitter = None
             else:
-                fitter, out = run_method(method, x, y, banded_solver=banded_solver, **kw)
+                fitter, out = run_method(method, x, y, banded_solver=banded_solver, fitter=fitter, **kw)
     except Exception as exc:  # noqa
         name = type(exc).__name__
         ctx.hist[f'oracle-raised:{name}'] = ctx.hist.get(f'oracle-raised:{name}', 0) + 1
@@ -719,6 +725,13 @@ def check_run(ctx, method, numba, banded_solver, x, y, kw, desc, style=''):
     P = D.T @ D
     kind = KIND.get(method, 'asls')
     nbad = 0
+    for rec in cap.calls:
+        bs = rec['pspline'].basis
+        if (int(bs.spline_degree), int(bs.num_knots), int(bs._num_bases)) != (k, num_knots, M):
+            ctx.fail(f'basis-params:{method}',
+                     f'{method}(num_knots={num_knots}, spline_degree={k}) solved with a basis of num_knots={bs.num_knots}, '
+                     f'spline_degree={bs.spline_degree} ({bs._num_bases} functions)', desc)
+            return 1
     for idx, rec in enumerate(cap.calls):
         w, yy = rec['w'], rec['y']
         lam_eff = lam
@@ -802,11 +815,82 @@ def check_run(ctx, method, numba, banded_solver, x, y, kw, desc, style=''):
     return nbad
 
 
+def seq_kwargs(rng, method, num_knots, k, d):
+    kw = dict(num_knots=num_knots, spline_degree=k, diff_order=d, lam=10.0 ** rng.uniform(-3, 5))
+    if method == 'mpspline':
+        kw['lam_smooth'] = 10.0 ** rng.uniform(-3, 0)
+        kw['half_window'] = 3
+    if method == 'pspline_mpls':
+        kw['half_window'] = 3
+    if method == 'pspline_iasls':
+        kw['lam_1'] = 10.0 ** rng.uniform(-5, -1)
+    if accepts(method, 'max_iter'):
+        kw['max_iter'] = rng.choice([0, 1, 3, 10])
+    if accepts(method, 'tol'):
+        kw['tol'] = rng.choice([0.0, 1e-3])
+    return kw
+
+
+def gen_sequence(rng):
+    """2-4 P-spline calls for ONE shared Baseline object: (num_knots, degree) pairs with the same sum (hence the
+    same number of basis functions), repeated pairs, changed diff_order / lam, different methods in a row."""
+    n = rng.randint(15, 50)
+    x = np.sort(np.array([rng.uniform(0, 10) for _ in range(n)]))
+    if rng.random() < 0.3:
+        x = x[np.array(rng.sample(range(n), n))]
+    total = rng.randint(4, 14)          # num_knots + spline_degree
+    steps = []
+    prev = None
+    for _ in range(rng.randint(2, 4)):
+        mode = rng.random()
+        if prev is not None and mode < 0.15:
+            nk, k = prev                                   # same basis again (legitimate reuse)
+        elif mode < 0.8:
+            ks = [q for q in range(0, 6) if total - q >= 2 and (total - q, q) != prev]
+            k = rng.choice(ks)
+            nk = total - k                                 # same sum, different pair
+        else:
+            k = rng.randint(0, 5)
+            nk = rng.randint(2, 12)
+        prev = (nk, k)
+        M = nk + k - 1
+        method = rng.choice(ALL_METHODS + ['pspline_smooth'])
+        dmin = 2 if method in ('pspline_iasls', 'pspline_drpls') else 1
+        if M - 1 < dmin:
+            method, dmin = 'pspline_asls', 1
+        if M - 1 < 1:
+            continue
+        d = rng.randint(dmin, min(4, M - 1))
+        t_ = (x - x.min()) / (x.max() - x.min())
+        y = 2 + 3 * t_ + 6 * np.exp(-0.5 * ((t_ - rng.uniform(0.2, 0.8)) / 0.06) ** 2) + np.array([rng.gauss(0, 0.1) for _ in range(n)])
+        steps.append({'method': method, 'y': y.tolist(), 'kw': seq_kwargs(rng, method, nk, k, d)})
+    return x, steps
+
+
+def check_sequence(ctx, numba, banded_solver, x, steps):
+    """Every call of a sequence on one shared fitter is checked exactly like a call on a fresh object."""
+    x = np.asarray(x, dtype=float)
+    fitter = new_fitter(x, banded_solver)
+    nbad = 0
+    for i, st in enumerate(steps):
+        desc = {'kind': 'sequence', 'numba': numba, 'banded_solver': banded_solver, 'x': x.tolist(),
+                'steps': steps[:i + 1], 'failing_step': i}
+        nbad += check_run(ctx, st['method'], numba, banded_solver, x, np.asarray(st['y'], dtype=float), dict(st['kw']),
+                          desc, style=f'seq{i}', fitter=fitter) or 0
+        if nbad:
+            break
+    return nbad
+
+
 def search(ctx, budget):
     rng = ctx.rng
     has_numba = numba_available()
     reps = ctx.n(8, 20) * budget
     found = 0
+    for r in range(ctx.n(40, 150) * budget):
+        x, steps = gen_sequence(rng)
+        if len(steps) >= 2:
+            found += check_sequence(ctx, has_numba and (r % 2 == 0), rng.choice([2, 4]), x, steps)
     for method in ALL_METHODS + ['pspline_smooth']:
         for r in range(reps):
             numba = has_numba and (r % 2 == 0)
@@ -819,7 +903,8 @@ def run(ctx):
                 '{numba, sparse-fallback} path x {lower, full} bands x degree 0-5 x diff_order 1-4 x num_knots 2-20 x x-layout '
                 '(dyadic dense/sparse/on-knots/clustered, real uniform/random/clustered, unsorted); distinct = distinct '
                 '(method, path, degree, bases, diff_order, lam, layout, data); non-trivial = more than 2 points and diff_order < bases; '
-                'oracle cases are (run, pass) pairs')
+                'oracle cases are (run, pass) pairs, on fresh fitters and along sequences of 2-4 calls sharing one Baseline object '
+                '((num_knots, degree) pairs with equal sum / equal number of basis functions, different methods in a row)')
     ctx.trusted += [
         'banded solvers (scipy solveh_banded / solve_banded): Section variable with contract den(lhs) * solve = rhs; '
         'sampled by the backward-error certificate of the oracle',
@@ -858,6 +943,10 @@ def replay(rep):
         def broke(self, *a):
             self.fails.append(a)
     c = _C()
+    if case.get('kind') == 'sequence':
+        check_sequence(c, case['numba'], case['banded_solver'], np.array(case['x']), case['steps'])
+        print('replay sequence:', c.fails or 'property holds on this input')
+        return 1 if c.fails else 0
     if case.get('kind') == 'oracle':
         check_run(c, case['method'], case['numba'], case['banded_solver'], np.array(case['x']), np.array(case['y']),
                   case['kw'], case)
